@@ -25,6 +25,21 @@ inductive ObjField where
   deriving Repr, Inhabited
 end
 
+mutual
+/-- a variable occurs somewhere in the value -/
+def Value.hasVar : Value → Bool
+  | .var _ => true
+  | .list vs => Value.hasVarL vs
+  | .obj fs => Value.hasVarF fs
+  | _ => false
+def Value.hasVarL : List Value → Bool
+  | [] => false
+  | v :: vs => v.hasVar || Value.hasVarL vs
+def Value.hasVarF : List ObjField → Bool
+  | [] => false
+  | .mk _ v :: fs => v.hasVar || Value.hasVarF fs
+end
+
 def ObjField.name : ObjField → String | .mk n _ => n
 def ObjField.value : ObjField → Value | .mk _ v => v
 
